@@ -224,7 +224,14 @@ func main() {
 						fns = append(fns, ln)
 					}
 				}
-				c.E("lib.Unexpected", "driver", d.name, "what", fmt.Sprint(r), "where", fns)
+				what := fmt.Sprint(r)
+				if len(fns) == 0 && (strings.HasPrefix(what, "be32:") || strings.HasPrefix(what, "harness:") || strings.HasPrefix(what, "runtime error:")) {
+					// no frame of the library on the stack and a message of the harness' own: a defect of the harness, never a verdict
+					fmt.Fprintf(os.Stderr, "HARNESS-ERROR driver=%s: %s\n%s\n", d.name, what, debug.Stack())
+					c.close()
+					os.Exit(3)
+				}
+				c.E("lib.Unexpected", "driver", d.name, "what", what, "where", fns)
 			}
 		}()
 		d.run(c)
